@@ -35,6 +35,8 @@ func main() {
 		cmdReplay(os.Args[2:])
 	case "persist":
 		cmdPersist(os.Args[2:])
+	case "conc":
+		cmdConc(os.Args[2:])
 	default:
 		die(2, "unknown driver %q", os.Args[1])
 	}
